@@ -90,7 +90,9 @@ type Rec struct {
 	record bool
 
 	// fault plan
-	failAt     int // 1-based index among counted calls, 0 = none
+	failAt     int  // 1-based index among counted calls, 0 = none
+	late       bool // deliver a query's fault through its rows
+	lateHit    bool
 	counted    int
 	failFilter func(e *Event) bool
 	failErr    error
@@ -155,8 +157,37 @@ func (r *Rec) Counted() int { r.mu.Lock(); defer r.mu.Unlock(); return r.counted
 func (r *Rec) FailAt(k int, filter func(e *Event) bool, err error) {
 	r.mu.Lock()
 	r.failAt, r.counted, r.failFilter, r.failErr = k, 0, filter, err
+	r.late, r.lateHit = false, false
 	r.mu.Unlock()
 }
+
+// FailLateAt is FailAt for a failure that only shows while the rows are read: when the k-th counted
+// call is a query, the call itself succeeds and the first Next on its rows returns the error -- the
+// way SQLite reports a constraint violation of INSERT ... RETURNING. (Other calls fail as with FailAt.)
+func (r *Rec) FailLateAt(k int, filter func(e *Event) bool, err error) {
+	r.FailAt(k, filter, err)
+	r.mu.Lock()
+	r.late = true
+	r.mu.Unlock()
+}
+
+// takeLate reports (once) that the fault just injected is to be delivered through the rows.
+func (r *Rec) takeLate() bool {
+	r.mu.Lock()
+	defer r.mu.Unlock()
+	if r.lateHit {
+		r.lateHit = false
+		return true
+	}
+	return false
+}
+
+// failRows is a result set whose first Next fails.
+type failRows struct{ err error }
+
+func (f *failRows) Columns() []string              { return []string{} }
+func (f *failRows) Close() error                   { return nil }
+func (f *failRows) Next(dest []driver.Value) error { return f.err }
 
 // CountOnly arms counting without failing.
 func (r *Rec) CountOnly(filter func(e *Event) bool) { r.FailAt(0, filter, nil) }
@@ -232,6 +263,9 @@ func (r *Rec) pre(e *Event) (int, error) {
 			}
 			e.Res = "fault"
 			e.Err = inj.Error()
+			if r.late && e.K == "query" {
+				r.lateHit = true
+			}
 		}
 	}
 	idx := -1
@@ -336,6 +370,9 @@ func (c *conn) QueryContext(ctx context.Context, q string, args []driver.NamedVa
 	e := &Event{K: "query", SQL: q, Args: args, Conn: c.id, Tx: c.tx, Ctx: Tag(ctx)}
 	idx, inj := c.r.pre(e)
 	if inj != nil {
+		if c.r.takeLate() {
+			return &failRows{inj}, nil
+		}
 		return nil, inj
 	}
 	rows, err := c.in.QueryContext(ctx, q, args)
@@ -434,6 +471,9 @@ func (s *stmt) QueryContext(ctx context.Context, args []driver.NamedValue) (driv
 	e := &Event{K: "query", SQL: s.q, Args: args, Conn: s.c.id, Tx: s.c.tx, Ctx: Tag(ctx), Prepared: true}
 	idx, inj := s.c.r.pre(e)
 	if inj != nil {
+		if s.c.r.takeLate() {
+			return &failRows{inj}, nil
+		}
 		return nil, inj
 	}
 	rows, err := s.in.(driver.StmtQueryContext).QueryContext(ctx, args)
